@@ -67,23 +67,23 @@ func treeDiff(a, b map[string]string) []string {
 func c20Locations() map[string]string {
 	long := "http://crl.test/" + strings.Repeat("a", 5000) + ".crl"
 	return map[string]string{
-		"plain":           "http://crl.test/plain.crl",
-		"dotdot":          "http://crl.test/../../../../x/../../etc/cron.d/evil",
-		"dotdot-encoded":  "http://crl.test/%2e%2e%2f%2e%2e%2fescape.crl",
-		"slash-encoded":   "http://crl.test/a%2Fb%2F..%2F..%2Fc.crl",
-		"backslash":       "http://crl.test/..\\..\\win.crl",
-		"nul":             "http://crl.test/a%00b.crl",
-		"newline":         "http://crl.test/a%0ab.crl",
-		"very-long":       long,
-		"unicode":         "http://crl.test/ünï/名前.crl",
-		"upper-scheme":    "HTTP://crl.test/plain.crl",
-		"upper-host":      "http://CRL.TEST/plain.crl",
-		"query":           "http://crl.test/plain.crl?x=../../y",
-		"port":            "http://crl.test:8080/plain.crl",
-		"userinfo":        "http://u:p@crl.test/plain.crl",
-		"space":           "http://crl.test/a b.crl",
-		"abs-path-like":   "http://crl.test//etc/passwd",
-		"tilde":           "http://crl.test/~root/.ssh/x",
+		"plain":          "http://crl.test/plain.crl",
+		"dotdot":         "http://crl.test/../../../../x/../../etc/cron.d/evil",
+		"dotdot-encoded": "http://crl.test/%2e%2e%2f%2e%2e%2fescape.crl",
+		"slash-encoded":  "http://crl.test/a%2Fb%2F..%2F..%2Fc.crl",
+		"backslash":      "http://crl.test/..\\..\\win.crl",
+		"nul":            "http://crl.test/a%00b.crl",
+		"newline":        "http://crl.test/a%0ab.crl",
+		"very-long":      long,
+		"unicode":        "http://crl.test/ünï/名前.crl",
+		"upper-scheme":   "HTTP://crl.test/plain.crl",
+		"upper-host":     "http://CRL.TEST/plain.crl",
+		"query":          "http://crl.test/plain.crl?x=../../y",
+		"port":           "http://crl.test:8080/plain.crl",
+		"userinfo":       "http://u:p@crl.test/plain.crl",
+		"space":          "http://crl.test/a b.crl",
+		"abs-path-like":  "http://crl.test//etc/passwd",
+		"tilde":          "http://crl.test/~root/.ssh/x",
 	}
 }
 
